@@ -154,6 +154,13 @@ def _layout(a, layout):
         return big[::2, 1::2]
     if layout == 'bigendian' and a.dtype.itemsize > 1:
         return a.astype(a.dtype.newbyteorder('>'))
+    if layout == 'negstride':
+        rev = tuple(slice(None, None, -1) for _ in a.shape)
+        return np.ascontiguousarray(a[rev])[rev]          # the same values seen through negative strides
+    if layout == 'readonly':
+        b = np.array(a, copy=True)
+        b.flags.writeable = False
+        return b
     return a
 
 
@@ -387,7 +394,10 @@ def _check(ctx, kind, ts, dtype, ba, bs, samples, pi, pr, pc, a, reqs, pending, 
     case = _case(kind, ts, dtype, ba, bs, samples, pi, pr, pc, a, layout)
     case['spell'] = spell
     case['num'] = num
+    snap = np.ascontiguousarray(a).tobytes()
     st, val = _encode(a, ts, ba, bs, pi, pr, pc, spell, num)
+    if np.ascontiguousarray(a).tobytes() != snap:
+        ctx.fail(case, 'encode_frame modified the array it was given', site='input-modified')
     spp = a.shape[2] if a.ndim > 2 else 1
     rows, cols = a.shape[0], a.shape[1]
     outcome = 'accepted' if st == 'ok' else ('refused' if st == 'validation' else 'codec-refused')
@@ -650,7 +660,7 @@ def _frames(ctx, reqs, pending):
         shape = (rows, cols) if s is None else (rows, cols, s)
         content = r.choice(['random', 'random', 'random', 'zero', 'max', 'min', 'checker'])
         a = _mk_array(ctx.np_rng('framepix', i), dt, shape, ba, bs, pr, content)
-        layout = r.choice(['c', 'c', 'fortran', 'view', 'bigendian'])
+        layout = r.choice(['c', 'c', 'fortran', 'view', 'bigendian', 'negstride', 'readonly'])
         if ts not in NATIVE and layout == 'bigendian':
             layout = 'c'
         kind = 'frame'
